@@ -234,9 +234,14 @@ def run_case(case):
         rr = random.Random(case['i'] * 7 + 1)
         # betas= is documented as 'values of the free parameters'
         over = {k: round(v + rr.uniform(-0.3, 0.3), 3) for k, v in bv.items() if spec['betas'][k][1] == 0 and rr.random() < 0.6}
+        # boundary values a by-name override must honour literally: exact zero (float / int / bool), negative zero
+        for k in list(over):
+            if rr.random() < 0.35:
+                over[k] = rr.choice([0.0, 0, False, -0.0, 1, True])
+                rec.c('override_with_boundary_value')
         if over:
             bv2 = dict(bv)
-            bv2.update(over)
+            bv2.update({k: float(v) for k, v in over.items()})
             j2 = evalast.judge(spec['ast'], spec['data'], bv2, spec['shared'])
             if j2['ok']:
                 ok, vo = guarded('get_value_c-betas', lambda: expr.get_value_c(database=db, prepare_ids=True, betas=over))
